@@ -1603,7 +1603,12 @@ def describe(c, o):
 def shrink(c):
     """Greedy: drop a spot (with its links), a track, an optional attribute, the call decorations, while the oracle still fails."""
 
+    budget = [120]                      # conversions spent on shrinking (a large document has hundreds of candidates per round)
+
     def fails(x):
+        if budget[0] <= 0:
+            return False
+        budget[0] -= 1
         try:
             return oracle(x, run_impl(x)) is not None
         except Exception:
